@@ -83,6 +83,7 @@ type hsCase struct {
 	Key      string `json:"key"`
 	Accepts  bool   `json:"accepts"`
 	Up       bool   `json:"up"`
+	First    string `json:"first"` // session: who sends data first once the handshake is done ("client" | "server")
 	Status   int    `json:"status"`
 }
 
@@ -92,6 +93,16 @@ type srvJob struct {
 	level  int
 	script func(c *websocket.Conn) error
 	done   chan error // nil: upgraded and the script succeeded; upgradeErr: Upgrade refused
+	// spoke (server-speaks-first sessions) is closed when the server has written everything it sends before
+	// it reads, or when Upgrade refused: the client's first Read waits for it (gate of recConn)
+	spoke     chan struct{}
+	spokeOnce sync.Once
+}
+
+func (j *srvJob) hasSpoken() {
+	if j.spoke != nil {
+		j.spokeOnce.Do(func() { close(j.spoke) })
+	}
 }
 
 type upgradeErr struct{ err error }
@@ -116,10 +127,12 @@ func hsServer() *httptest.Server {
 			}
 			c, err := job.up.Upgrade(w, r, nil)
 			if err != nil {
+				job.hasSpoken()
 				job.done <- upgradeErr{err}
 				return
 			}
 			defer c.Close()
+			defer job.hasSpoken()
 			c.SetCompressionLevel(job.level)
 			job.done <- job.script(c)
 		}))
@@ -427,7 +440,11 @@ type dialJob struct {
 	cs    *hsCase
 	bytes chan []byte // what the client wrote after its request
 	req   chan *http.Request
+	wrote chan struct{} // closed when the response (and the frame behind it) is written: gate of the client's first Read
+	once  sync.Once
 }
+
+func (j *dialJob) hasWritten() { j.once.Do(func() { close(j.wrote) }) }
 
 var dlOnce sync.Once
 var dlLn net.Listener
@@ -462,6 +479,7 @@ func dialListener() net.Listener {
 					if job == nil {
 						return
 					}
+					defer job.hasWritten()
 					job.req <- req
 					r := job.cs.Resp
 					var sb strings.Builder
@@ -495,7 +513,16 @@ func dialListener() net.Listener {
 					if r.Status == 101 {
 						out = append(out, serverFrame(1, scriptedMessage(), r.Ext != "none")...)
 					}
+					// the response and the first message in ONE write; the client's first Read waits for it
 					conn.Write(out)
+					job.hasWritten()
+					if r.Status == 101 {
+						// the close frame follows when the client has started to write: a client that lost the
+						// message behind the response reads the close frame next instead of waiting for ever
+						if _, err := br.Peek(1); err == nil {
+							conn.Write([]byte{0x88, 0x02, 0x03, 0xe8})
+						}
+					}
 					b, _ := io.ReadAll(br)
 					job.bytes <- b
 				}()
@@ -510,13 +537,23 @@ func runDial(c *rp.Ctx, i, v int, cs *hsCase) rp.Result {
 	hsMu.Lock()
 	hsSeq++
 	path := fmt.Sprintf("/d/%d", hsSeq)
-	job := &dialJob{cs: cs, bytes: make(chan []byte, 1), req: make(chan *http.Request, 1)}
+	job := &dialJob{cs: cs, bytes: make(chan []byte, 1), req: make(chan *http.Request, 1), wrote: make(chan struct{})}
 	dlJobs[path] = job
 	hsMu.Unlock()
 	defer func() { hsMu.Lock(); delete(dlJobs, path); hsMu.Unlock() }()
 
 	bufs := []int{0, 256, 1024}[v%3]
-	d := websocket.Dialer{EnableCompression: cs.Compress, ReadBufferSize: bufs, WriteBufferSize: bufs, HandshakeTimeout: ioWait}
+	d := websocket.Dialer{EnableCompression: cs.Compress, ReadBufferSize: bufs, WriteBufferSize: bufs, HandshakeTimeout: 2 * ioWait,
+		NetDial: func(network, a string) (net.Conn, error) {
+			nc, err := net.Dial(network, a)
+			if err != nil {
+				return nil, err
+			}
+			if cs.Resp.Status != 101 {
+				return nc, nil // nothing follows such a response
+			}
+			return &recConn{Conn: nc, gate: job.wrote}, nil
+		}}
 	conn, _, err := d.Dial("ws://"+ln.Addr().String()+path, nil)
 	desc := fmt.Sprintf("response %+v to a Dialer with compression %v", cs.Resp, cs.Compress)
 
@@ -554,11 +591,8 @@ func runDial(c *rp.Ctx, i, v int, cs *hsCase) rp.Result {
 		return rp.Fail(i, "the Dialer refused a conformant response (%v): %s", err, desc)
 	}
 	defer conn.Close()
-	conn.SetReadDeadline(time.Now().Add(ioWait))
-	t, p, err := conn.ReadMessage()
-	if err != nil || t != websocket.TextMessage || !bytes.Equal(p, scriptedMessage()) {
-		return rp.Fail(i, "the dialed connection read (type %d, %d bytes, err %v), the server sent a %d byte text message (compressed: %v): %s", t, len(p), err, len(scriptedMessage()), cs.Z, desc)
-	}
+	// the client writes first (the scripted server answers its first byte with a close frame), then reads:
+	// the message the server sent right behind its response, then that close frame
 	script := mkSteps("pat",
 		step{API: "WM", T: 1, Size: 10, Parts: [][]int{{10, 1}}},
 		step{API: "NW", T: 2, Size: 300, Parts: [][]int{{200, 1}, {100, 1}}},
@@ -570,8 +604,14 @@ func runDial(c *rp.Ctx, i, v int, cs *hsCase) rp.Result {
 			return rp.Fail(i, "dialed connection, message %d: %v", k+1, err)
 		}
 	}
-	if err := conn.WriteControl(websocket.CloseMessage, websocket.FormatCloseMessage(websocket.CloseNormalClosure, ""), time.Time{}); err != nil {
-		return rp.Fail(i, "dialed connection, close: %v", err)
+	conn.SetReadDeadline(time.Now().Add(ioWait))
+	t, p, err := conn.ReadMessage()
+	if err != nil || t != websocket.TextMessage || !bytes.Equal(p, scriptedMessage()) {
+		return rp.Fail(i, "the dialed connection read (type %d, %d bytes, err %v), the server sent a %d byte text message right behind its response (compressed: %v): %s", t, len(p), err, len(scriptedMessage()), cs.Z, desc)
+	}
+	_, _, err = conn.ReadMessage() // the default close handler echoes the close frame
+	if ce, ok := err.(*websocket.CloseError); !ok || ce.Code != websocket.CloseNormalClosure {
+		return rp.Fail(i, "the dialed connection read %v after the message, the server sent the close frame 1000: %s", err, desc)
 	}
 	conn.Close()
 	var wire []byte
@@ -589,12 +629,19 @@ func runDial(c *rp.Ctx, i, v int, cs *hsCase) rp.Result {
 }
 
 // ----------------------------------------------------------------------------- session
-// recConn records both directions of the client's socket.
+// recConn records both directions of the client's socket. With a gate, its FIRST Read waits until the gate is
+// closed (the server has written its handshake response and everything it sends right behind it) and a moment
+// longer, so that the response and those frames are in the socket and handed to the client by ONE Read: what a
+// fast server or coalesced segments do by chance is made deterministic.
 type recConn struct {
 	net.Conn
 	mu   sync.Mutex
 	w, r bytes.Buffer
+	gate <-chan struct{}
+	once sync.Once
 }
+
+const settle = 10 * time.Millisecond
 
 func (c *recConn) Write(p []byte) (int, error) {
 	n, err := c.Conn.Write(p)
@@ -605,6 +652,15 @@ func (c *recConn) Write(p []byte) (int, error) {
 }
 
 func (c *recConn) Read(p []byte) (int, error) {
+	if c.gate != nil {
+		c.once.Do(func() {
+			select {
+			case <-c.gate:
+			case <-time.After(ioWait):
+			}
+			time.Sleep(settle)
+		})
+	}
 	n, err := c.Conn.Read(p)
 	c.mu.Lock()
 	c.r.Write(p[:n])
@@ -632,9 +688,18 @@ func pump(c *websocket.Conn, got *[]rdMsg, each chan int, end chan error) {
 	}
 }
 
+// runSession: the real Dialer against the real Upgrader, three buffer combinations. cs.First says who sends data
+// first once the handshake is done:
+//
+//	client  the server writes when the client's first message has arrived, then both ends write and read
+//	        concurrently; the client closes when it has everything the server sent
+//	server  the server writes all its messages right after Upgrade returns, before it reads anything, and the
+//	        client's first Read is held back until they are written (recConn.gate): the 101 response and the
+//	        frames behind it reach the client in one Read. The client must still receive exactly those messages.
 func runSession(c *rp.Ctx, i int, cs *hsCase) rp.Result {
 	srv := hsServer()
 	addr := srv.Listener.Addr().String()
+	serverFirst := cs.First == "server"
 	var sess []int
 	for combo := 0; combo < 3; combo++ {
 		cbuf := []int{0, 256, 1024}[combo]
@@ -649,33 +714,63 @@ func runSession(c *rp.Ctx, i int, cs *hsCase) rp.Result {
 			step{API: "PM", T: 1, Size: 65536, Parts: [][]int{{65536, 1}}},
 			step{API: "WS", T: 1, Size: 1000, Parts: [][]int{{1, 1}, {499, 1}, {500, 1}}},
 			step{API: "RF", T: 2, Size: 5000, Parts: [][]int{{5000, 1}}})
+		if serverFirst {
+			// small: response and messages fit the client's first Read (4096 byte reader) or are cut by it (256, 1024)
+			serverScript = mkSteps([]string{"rnd", "pat", "pat"}[combo],
+				step{API: "WM", T: 1, Size: 13, Parts: [][]int{{13, 1}}},
+				step{API: "WM", T: 2, Size: 0, Parts: [][]int{{0, 1}}},
+				step{API: "PM", T: 2, Size: 126, Parts: [][]int{{126, 1}}},
+				step{API: "WS", T: 1, Size: 300, Parts: [][]int{{1, 1}, {149, 1}, {150, 1}}},
+				step{API: "JS", T: 1, Size: 60, Parts: [][]int{{60, 1}}},
+				step{API: "RF", T: 2, Size: 90, Parts: [][]int{{90, 1}}})
+		}
 		var sGot []rdMsg
 		job := &srvJob{up: websocket.Upgrader{ReadBufferSize: sbuf, WriteBufferSize: sbuf, EnableCompression: cs.Server.Compress,
-			CheckOrigin: policyFunc(cs.Server.Policy)}, level: []int{1, 9, -2}[combo],
-			script: func(sc *websocket.Conn) error {
-				each, end := make(chan int, 64), make(chan error, 1)
+			CheckOrigin: policyFunc(cs.Server.Policy)}, level: []int{1, 9, -2}[combo]}
+		if serverFirst {
+			job.spoke = make(chan struct{})
+		}
+		job.script = func(sc *websocket.Conn) error {
+			each, end := make(chan int, 64), make(chan error, 1)
+			if !serverFirst {
+				// the client speaks first: nothing is written before its first message has arrived
 				go pump(sc, &sGot, each, end)
-				for k := range serverScript.Steps {
-					st := &serverScript.Steps[k]
-					if err := writeStep(sc, st, payload(serverScript, st, c.Seed), c.Seed); err != nil {
-						return fmt.Errorf("server message %d (%s, %d bytes): %v", k+1, st.API, st.Size, err)
-					}
+				select {
+				case <-each:
+				case e := <-end:
+					return fmt.Errorf("server's reader ended before the client's first message: %v", e)
+				case <-time.After(ioWait):
+					return fmt.Errorf("the client's first message did not arrive within %v", ioWait)
 				}
-				err := waitErr(end, "the server's reader")
-				if ce, ok := err.(*websocket.CloseError); !ok || ce.Code != websocket.CloseNormalClosure {
-					return fmt.Errorf("server's reader ended with %v, want the client's close frame 1000", err)
+			}
+			for k := range serverScript.Steps {
+				st := &serverScript.Steps[k]
+				if err := writeStep(sc, st, payload(serverScript, st, c.Seed), c.Seed); err != nil {
+					return fmt.Errorf("server message %d (%s, %d bytes): %v", k+1, st.API, st.Size, err)
 				}
-				return nil
-			}}
+			}
+			if serverFirst {
+				job.hasSpoken()
+				go pump(sc, &sGot, each, end)
+			}
+			err := waitErr(end, "the server's reader")
+			if ce, ok := err.(*websocket.CloseError); !ok || ce.Code != websocket.CloseNormalClosure {
+				return fmt.Errorf("server's reader ended with %v, want the client's close frame 1000", err)
+			}
+			return nil
+		}
 		path := addJob(job)
 		var rc *recConn
-		d := websocket.Dialer{EnableCompression: cs.Client.Compress, ReadBufferSize: cbuf, WriteBufferSize: cbuf, HandshakeTimeout: ioWait,
+		d := websocket.Dialer{EnableCompression: cs.Client.Compress, ReadBufferSize: cbuf, WriteBufferSize: cbuf, HandshakeTimeout: 2 * ioWait,
 			NetDial: func(network, a string) (net.Conn, error) {
 				nc, err := net.Dial(network, a)
 				if err != nil {
 					return nil, err
 				}
 				rc = &recConn{Conn: nc}
+				if serverFirst {
+					rc.gate = job.spoke
+				}
 				return rc, nil
 			}}
 		hdr := http.Header{}
@@ -685,8 +780,8 @@ func runSession(c *rp.Ctx, i int, cs *hsCase) rp.Result {
 		case "other":
 			hdr.Set("Origin", "http://evil.example")
 		}
-		desc := fmt.Sprintf("Dialer(compression %v, origin %s, buffers %d) <-> Upgrader(compression %v, origin policy %s, buffers %d)",
-			cs.Client.Compress, cs.Client.Origin, cbuf, cs.Server.Compress, cs.Server.Policy, sbuf)
+		desc := fmt.Sprintf("Dialer(compression %v, origin %s, buffers %d) <-> Upgrader(compression %v, origin policy %s, buffers %d), %s speaks first",
+			cs.Client.Compress, cs.Client.Origin, cbuf, cs.Server.Compress, cs.Server.Policy, sbuf, map[bool]string{true: "server", false: "client"}[serverFirst])
 		conn, resp, err := d.Dial("ws://"+addr+path, hdr)
 		if !cs.Up {
 			dropJob(path)
@@ -718,8 +813,10 @@ func runSession(c *rp.Ctx, i int, cs *hsCase) rp.Result {
 				return fail("client message %d (%s, %d bytes): %v", k+1, st.API, st.Size, err)
 			}
 		}
-		// the close frame goes out when everything the server sends has arrived
-		for n := 0; n < len(serverScript.Steps); {
+		// client first: the close frame goes out when everything the server sends has arrived.
+		// server first: everything the server sends was written before Dial returned; the close frame goes out at
+		// once and its echo arrives behind the server's messages - no waiting, whatever the client made of them.
+		for n := 0; !serverFirst && n < len(serverScript.Steps); {
 			select {
 			case n = <-each:
 			case e := <-end:
@@ -728,12 +825,17 @@ func runSession(c *rp.Ctx, i int, cs *hsCase) rp.Result {
 				return fail("the client received %d of %d messages within %v", len(cGot), len(serverScript.Steps), ioWait)
 			}
 		}
+		cm, cw := msgsOf(clientScript, cs.Z, c.Seed)
+		sm, sw := msgsOf(serverScript, cs.Z, c.Seed)
 		if err := conn.WriteControl(websocket.CloseMessage, websocket.FormatCloseMessage(websocket.CloseNormalClosure, ""), time.Time{}); err != nil {
 			return fail("client close: %v", err)
 		}
 		cerr := waitErr(end, "the client's reader")
 		if ce, ok := cerr.(*websocket.CloseError); !ok || ce.Code != websocket.CloseNormalClosure {
-			return fail("the client's reader ended with %v, want the echoed close frame 1000", cerr)
+			if e := sameMsgs("the client's ReadMessage", cGot, sw[:min(len(cGot), len(sw))], sm); e != nil {
+				return fail("%v; its reader ended with %v", e, cerr)
+			}
+			return fail("the client's reader ended after %d of the server's %d messages with %v, want the echoed close frame 1000", len(cGot), len(sw), cerr)
 		}
 		if serr := waitErr(job.done, "the server's handler"); serr != nil {
 			return fail("%v", serr)
@@ -741,8 +843,6 @@ func runSession(c *rp.Ctx, i int, cs *hsCase) rp.Result {
 		conn.Close()
 		dropJob(path)
 
-		cm, cw := msgsOf(clientScript, cs.Z, c.Seed)
-		sm, sw := msgsOf(serverScript, cs.Z, c.Seed)
 		if e := sameMsgs("the server's ReadMessage", sGot, cw, cm); e != nil {
 			return rp.Fail(i, "%v (%s)", e, desc)
 		}
@@ -775,9 +875,9 @@ func init() {
 		}
 		switch cs.Kind {
 		case "upgrade":
-			return runUpgrade(c, i, variant(raw), &cs)
+			return runUpgrade(c, i, rp.ContentHash(raw), &cs)
 		case "dial":
-			return runDial(c, i, variant(raw), &cs)
+			return runDial(c, i, rp.ContentHash(raw), &cs)
 		case "session":
 			return runSession(c, i, &cs)
 		}
